@@ -834,6 +834,14 @@ class DAGRunConcurrentManager(DAGRunManagerLike):
 
             if has_errors:
                 logger.debug('The subgraph should be stopped. There is an error in %s', name)
+
+                if dag.is_oneof:
+                    # Inside a OneOf subgraph the failure is contained. The node gets it as its result so that its
+                    # consumers and the owner of the OneOf subgraph can see that the subgraph has failed.
+                    self._node_storage.set_node_result(node_id, self.__get_subgraph_error(recurrent_subgraph))
+                    await self.__unlock_itself(node_id)
+                    await self.__unlock_descendants(node_id)
+
                 return
 
             if not is_rec_result and not has_errors:
